@@ -735,6 +735,11 @@ CONTROLS = [
     ("the pair is returned only when a crucial battery metric is NaN", BMM,
      "        if nan_metric_in_list(battery_data, crucial_metrics_bat):\n",
      "        if not nan_metric_in_list(battery_data, crucial_metrics_bat):\n", "C17.AGG"),
+    ("a computed distribution with left-over power is answered out-of-bounds", BMM,
+     "        return distribution\n\n    async def _distribute_power(",
+     "        if not request.adjust_power and not is_close_to_zero(distribution.remaining_power):\n"
+     "            return OutOfBounds(request=request, bounds=self._get_bounds(pairs_data))\n"
+     "        return distribution\n\n    async def _distribute_power(", "C17.ONLY"),
 ]
 
 
@@ -764,6 +769,39 @@ def check_dist(run: Run, prog: Program) -> None:
                       node=at, file=(file if at is not None else v.where) or None, path=v.path)
     for d in sorted(scratch.distinct - bad):           # what the scratch run discharged
         run.ok("C17.DIST", d.split("|", 1)[1])
+
+
+def check_only(run: Run, prog: Program) -> None:
+    """Who may answer out-of-bounds: an `OutOfBounds(...)` result is built only inside the admission test
+    (the function playing `_check_request` and the private methods it calls), i.e. only where C17.ACC has
+    decided, for every ordering, that it is not produced for a power inside the advertised bounds.  Any
+    other producer on the request path — a rejection after the distribution was computed (left-over
+    power, SoC headroom), in the distribution algorithm, in the actor that forwards results, a
+    conversion of another failure into OutOfBounds — is a rejection the advertised bounds (which depend
+    only on the power bounds of the components) do not explain."""
+    from ._admission import check_request_fn, reach
+
+    chk = check_request_fn(prog)
+    allowed = [f.node for f in reach(prog, chk)]
+    sites = 0
+    for mod in prog.modules.values():
+        stack: list[tuple[ast.AST, ast.AST | None]] = [(mod.tree, None)]
+        while stack:
+            n, owner = stack.pop()
+            if isinstance(n, (ast.FunctionDef, ast.AsyncFunctionDef)) and owner is None:
+                owner = n                                   # the outermost function holds its closures
+            if isinstance(n, ast.Call) and _callee(n) == "OutOfBounds":
+                sites += 1
+                where = f"{mod.name}:{getattr(owner, 'name', '<module level>')}"
+                run.check(owner is not None and any(owner is a for a in allowed), "C17.ONLY", where, n,
+                          f"an OutOfBounds answer is produced outside the admission test ({chk.name} and its helpers): "
+                          "this rejection is not decided by comparing the requested power with the aggregated bounds, "
+                          "so a power inside the advertised bounds (which do not depend on SoC, left-over power or "
+                          "set-point failures) can be answered out-of-bounds", node=n, file=mod.rel,
+                          instance=f"{where}: OutOfBounds built at line {n.lineno} inside the admission test")
+            stack.extend((c, owner) for c in ast.iter_child_nodes(n))
+    if sites == 0:
+        raise AnalysisError("C17.ONLY: no construction of OutOfBounds found at all")
 
 
 _CMP = {ast.Lt: "<", ast.Gt: ">", ast.LtE: "<=", ast.GtE: ">="}
@@ -916,12 +954,26 @@ def structural_controls(prog: Program) -> list[tuple[str, str, str, str, str]]: 
                        and (i.body[-1].value is None or _is_none(i.body[-1].value)))
         if drops:
             add(CONTROLS[10][0], BMM, [(drops[0][1], f"not {seg(bsrc, drops[0][1])}")])
+    # 12. the request handler (the method that runs the admission test) rejects once more on its way out
+    from ._admission import check_request_fn
+
+    chk = check_request_fn(prog)
+    handlers = [m for m in gb.methods.values() if m.node is not chk.node
+                and find_calls(m.node, lambda c: method_call(c, None, chk.name))]
+    if len(handlers) == 1 and len(handlers[0].params) >= 2:
+        req = handlers[0].params[1]
+        last = [st for st in handlers[0].node.body if isinstance(st, ast.Return) and st.value is not None]
+        if last and last[-1] is handlers[0].node.body[-1]:
+            pad = " " * last[-1].col_offset
+            add(CONTROLS[11][0], BMM, [(last[-1], f"if not {req}.adjust_power:\n{pad}    return OutOfBounds(request={req}, "
+                                                   f"bounds=None)\n{pad}return {seg(bsrc, last[-1].value)}")])
     return [(nm, module, *built.get(nm, (old, new)), rule) for nm, module, old, new, rule in CONTROLS]
 
 
 def run_rules(run: Run, prog: Program) -> None:
     check_agg(run, prog)
     check_acc(run, prog)
+    check_only(run, prog)
     check_dist(run, prog)
 
 
@@ -930,6 +982,8 @@ def check(run: Run, prog: Program, tier: str) -> str:
              "Σmax>=maxΣ lemmas; same battery aggregation; every group once with all its members (left out only "
              "when it has no data); positional metric tables agree")
     run.rule("C17.ACC", "for every ordering: P != 0 inside the advertised bounds => _check_request admits it")
+    run.rule("C17.ONLY", "OutOfBounds is built only inside the admission test, whose every OutOfBounds path C17.ACC "
+             "decides; no other code on the request path may answer out-of-bounds")
     run.rule("C17.DIST", "an admitted power is split over a group's inverters without entering an inverter's "
              "exclusion zone: every set-point is zero, a one-inverter set's whole allocation, or min(incl[i], R) "
              "under excl[i] <= R (C02.INV's rule, re-issued)")
@@ -937,9 +991,10 @@ def check(run: Run, prog: Program, tier: str) -> str:
     run.floor("C17.AGG", 14)
     run.floor("C17.ACC", 30)
     run.floor("C17.DIST", 4)
+    run.floor("C17.ONLY", 1)
     from ..engine.controls import run_controls
 
-    parts = {"C17.AGG": check_agg, "C17.ACC": check_acc, "C17.DIST": check_dist}
+    parts = {"C17.AGG": check_agg, "C17.ACC": check_acc, "C17.DIST": check_dist, "C17.ONLY": check_only}
     run_controls(run, structural_controls(prog), run_rules, tier, base_prog=prog, select=lambda rule: parts[rule])
     run.assume("inverter exclusion bounds satisfy lower <= 0 <= upper; lattice lemmas Σ_g max(a,b) >= "
                "max(Σa, Σb), Σ_g min(a,b) <= min(Σa, Σb), min_i x_i <= Σ_i x_i for x >= 0")
